@@ -213,7 +213,7 @@ def run(ctx, only=None):
             ctx.violation(f'{f["cell"]}|numeric={int(job["_numeric"])}|{f["kind"]}|{f.get("sub", "")}',
                           f'{f["cell"]} numeric={job["_numeric"]} valuation={f["val"]}: {f["kind"]}: {f["detail"]}',
                           dict(numeric=job['_numeric'], cells=[f['cell']]))
-    if not only and total_traffic < 5000:
+    if not only and total_traffic < 5000 and not ctx.violations:
         raise HarnessError(f'C04 exploration collapsed: {total_traffic} HTTP requests observed')
     ctx.extra['http_requests_observed'] = total_traffic
     ctx.extra['bound'] = 'verb x path x body complete; valuations: path palette x {none, singles, pairs, all} of the other fields'
